@@ -1,18 +1,44 @@
 """C04 - serial dataset generation is a pure function of the configuration."""
 ID = "C04"
-LEVEL = "exploration"
-LEVEL_TEXT = 'Bounded two-run experiments: generate twice in one process under perturbed global RNG histories (python, numpy, torch, other generations, other config constructions) and in subprocesses with different PYTHONHASHSEED, compare bytes; from_config without cache against generate + filters by hand; the passed configuration is compared before/after. A hyperproperty over histories is not expressible as a single-run contract; the contract-side argument (only seeded global streams are read between seeding and return) is documented in DESIGN.md, not machine-checked.'
-LEVEL_NOTE = 'Trusted: muutils set_reproducibility seeds python/numpy/torch.'
-TECHNIQUE = "bounded stand-in of the contract-based verifier: run-time checking of the real code against an independent executable statement over an enumerated scope (no function of this property is in the verified subset yet)"
-CONTRACT_MODULES = []
-PROVE = []
+LEVEL = "other"
+LEVEL_TEXT = (
+    "A two-run (hyper)property: decided by three pieces, none of which alone is a proof of the statement. (1) PROVED (z3): constructing / loading a configuration seeds the global random sources with the "
+    "configuration's own seed (GPTDatasetConfig.__post_init__: exactly one set_reproducibility(self.seed), the seed kept unless it was None), and the serial branch of _maze_gen_init_worker reseeds nothing "
+    "(np.random.seed is called exactly when the process has a worker identity). (2) EFFECT INVENTORY (static, exhaustive over the call sites of the real AST of generation/generators.py and of the "
+    "solver / endpoint-selection / item-construction functions it feeds): every call is classified; only the global seeded streams random.* / np.random.* may be drawn from - a private generator object "
+    "(default_rng / RandomState / Random), a clock, a process id, os.urandom, uuid, id() or hash() on that path is a failed frame obligation. (3) BOUNDED two-run experiments: "
+    + 'Bounded two-run experiments: generate twice in one process under perturbed global RNG histories (python, numpy, torch, other generations, other config constructions) and in subprocesses with different PYTHONHASHSEED, compare bytes; from_config without cache against generate + filters by hand; the passed configuration is compared before/after. A hyperproperty over histories is not expressible as a single-run contract; the contract-side argument (only seeded global streams are read between seeding and return) is documented in DESIGN.md, not machine-checked.'
+)
+LEVEL_NOTE = ("Trusted: muutils set_reproducibility seeds python/numpy/torch; the effect inventory resolves calls by name (dynamic dispatch is not followed: the generator is looked up in GENERATORS_MAP, all of "
+              "whose members live in the scanned file); iteration order of sets of int tuples does not depend on PYTHONHASHSEED (bounded check with 3 hash seeds).")
+TECHNIQUE = "contracts on the seeding functions discharged by z3 + static effect inventory over the generation path (frame obligations on the real AST) + bounded two-run experiments (level other: no single piece proves the hyperproperty)"
+CONTRACT_MODULES = ["contracts.configs"]
+PROVE = [("maze_dataset/dataset/dataset.py", "GPTDatasetConfig.__post_init__"), ("maze_dataset/dataset/maze_dataset.py", "_maze_gen_init_worker")]
 ASSUMPTIONS = []
-EXPLANATION = "see DESIGN.md C04"
+EXPLANATION = ("serial generation = load a copy of the configuration (which reseeds, proved) -> draw only from the seeded global streams (effect inventory) -> no reseeding in between (proved); "
+               "the two-run experiments check the conclusion itself on an enumerated scope")
 
 
 def run(run):
-    from props._std import run_bounded
+    import time
 
-    if PROVE:
-        run.prove(PROVE)
+    from props._std import run_bounded
+    from vlib.effects import inventory
+    from vlib.runner import BoundedResult
+
+    run.prove(PROVE)
+    t0 = time.time()
+    b = BoundedResult("C04.effect-inventory", "static: every call site in generation/generators.py and in the solver / endpoint-selection / item-construction functions, classified by the effect table "
+                      "(vlib/effects.py); distinct = call sites; a draw from anything but the global seeded streams is a violation", exhaustive=True, functions=["(all functions of the generation path)"])
+    try:
+        sites, bad = inventory(run.repo.root)
+        b.evaluations = sites
+        b.distinct = set(range(sites))
+        b.samples = [{"call_sites_examined": sites}]
+        for v in bad:
+            b.fail("C04:effects:" + v["site"].split(" in ")[-1], f"{v['site']}: {v['what']}", v, None)
+    except Exception as e:  # noqa: BLE001
+        b.errors.append(f"{type(e).__name__}: {e}")
+    b.seconds = time.time() - t0
+    run.bounded.append(b)
     run_bounded(run, "C04")
